@@ -211,7 +211,7 @@ impl<L: Language> NthChild<L> {
   fn find_index<'t, D: Doc<Lang = L>>(
     &self,
     node: &Node<'t, D>,
-    env: &mut Cow<MetaVarEnv<'t, D>>,
+    env: &Cow<MetaVarEnv<'t, D>>,
   ) -> Option<usize> {
     let parent = node.parent()?;
     //  only consider named children
@@ -222,17 +222,12 @@ impl<L: Language> NthChild<L> {
         .filter(|n| n.is_named())
         // keep the child itself: a relational rule returns the related node, not the child
         .filter(|child| {
-          if child.node_id() == node.node_id() {
-            // the inspected node: its bindings are part of the match
-            rule.match_node_with_env(child.clone(), env).is_some()
-          } else {
-            // other siblings are only counted: what they bind must not constrain
-            // the next sibling nor leak into the result
-            let mut scratch = Cow::Borrowed(env.as_ref());
-            rule
-              .match_node_with_env(child.clone(), &mut scratch)
-              .is_some()
-          }
+          // siblings are only counted: what one binds must not constrain
+          // the next sibling nor leak into the result
+          let mut scratch = Cow::Borrowed(env.as_ref());
+          rule
+            .match_node_with_env(child.clone(), &mut scratch)
+            .is_some()
         })
         .collect()
     } else {
@@ -274,7 +269,14 @@ impl<L: Language> Matcher<L> for NthChild<L> {
     env: &mut Cow<MetaVarEnv<'tree, D>>,
   ) -> Option<Node<'tree, D>> {
     let index = self.find_index(&node, env)?;
-    self.position.is_matched(index).then_some(node)
+    if !self.position.is_matched(index) {
+      return None;
+    }
+    // the node is selected: only now do the bindings of its own ofRule match count
+    if let Some(rule) = &self.of_rule {
+      rule.match_node_with_env(node.clone(), env)?;
+    }
+    Some(node)
   }
   fn potential_kinds(&self) -> Option<BitSet> {
     let rule = self.of_rule.as_ref()?;
